@@ -365,6 +365,29 @@ family_iv(void)
                 }
             mc_end(true, mc.cur_failed ? "failed" : nvalid ? "mutation-some-executed" : "mutation-none-executed");
         }
+        /* thorough: two substitutions (deviation bound 2 on the stream) */
+        if (g_th)
+            for (size_t p1 = 0; p1 < c->n; ++p1) {
+                if (!mc_case("iv %s %s two substitutions, first at octet %zu x later positions x 13x13 octets", c->tcp ? "tcp" : "serial", c->name, p1))
+                    continue;
+                int nvalid = 0;
+                for (size_t p2 = p1 + 1; p2 < c->n && !mc.cur_failed; ++p2)
+                    for (int s1 = 0; s1 < 13 && !mc.cur_failed; ++s1)
+                        for (int s2 = 0; s2 < 13 && !mc.cur_failed; ++s2) {
+                            memcpy(x, c->raw, c->n);
+                            x[p1] = SUBST[s1];
+                            x[p2] = SUBST[s2];
+                            const size_t wn = frame_wire(c->tcp, x, c->n, wire);
+                            drv_init(&D, c->tcp, c->w16, 128, !c->tcp);
+                            struct result r;
+                            serve(&D, wire, wn, 2, &r);
+                            snprintf(what, sizeof what, "octet %zu <- %02x and octet %zu <- %02x", p1, SUBST[s1], p2, SUBST[s2]);
+                            check_stream(&D, c->tcp, &r, what);
+                            nvalid += D.ncalls;
+                            drv_release(&D);
+                        }
+                mc_end(true, mc.cur_failed ? "failed" : nvalid ? "mutation-some-executed" : "mutation-none-executed");
+            }
         /* truncations: the stream simply ends (TCP: prefix announces more than arrives) */
         if (mc_case("iv %s %s every truncation of the wire stream", c->tcp ? "tcp" : "serial", c->name)) {
             const size_t wn = frame_wire(c->tcp, c->raw, c->n, wire);
@@ -575,7 +598,7 @@ main(int argc, char **argv)
     family_iv();
     family_v();
     family_vi();
-    mc_finish(true, g_th ? "block sizes {F+1,F+2,F+3,F+11..F+17,F+32,128,129,200,257}; i: every frame length up to capacity+6; ii: every read size up to capacity+8; iii: 2 transports x 8 kind triples x 8 allocation scripts; iv: 8 corpus frames x every position x 13 octets x allocation, truncations, short frames, concatenations, 12 TCP prefixes x 3 tails; v: all strings of length 0..3 over 13 octets; vi: source error at every octet x 2 codes x allocation x every single-octet mutation, sink error at every reply octet"
+    mc_finish(true, g_th ? "block sizes {F+1,F+2,F+3,F+11..F+17,F+32,128,129,200,257}; i: every frame length up to capacity+6; ii: every read size up to capacity+8; iii: 2 transports x 8 kind triples x 8 allocation scripts; iv: 8 corpus frames x every position x 13 octets x allocation, every pair of positions x 13x13 octets, truncations, short frames, concatenations, 12 TCP prefixes x 3 tails; v: all strings of length 0..3 over 13 octets; vi: source error at every octet x 2 codes x allocation x every single-octet mutation, sink error at every reply octet"
                          : "block sizes {F+1,F+2,F+11..F+17,F+32,128,129}; i: every frame length up to capacity+6; ii: every read size up to capacity+8; iii: 2 transports x 8 kind triples x 8 allocation scripts; iv: 6 corpus frames x every position x 13 octets x allocation, truncations, short frames, concatenations, 12 TCP prefixes x 3 tails; v: all strings of length 0..3 over 13 octets; vi: source error at every octet x 2 codes x allocation x 4 mutations, sink error at every reply octet");
     return 0;
 }
